@@ -4,5 +4,8 @@ From Coq Require Import List PrimFloat.
 From RV Require Import Common.Num Common.FloatNum C06.CadenceNum.
 Import ListNotations.
 
+(* the branch is guarded by  if (r->simulationarchive_auto_interval != 0.)  : interval 0 means "no automatic snapshots"
+   (a NaN interval passes the guard; its threshold test is then false for ever after the first snapshot) *)
 Definition run_thrF (sign I next : float) (xs : list float) : list float :=
-  let '(out, fin) := run_thr FNum sign I next xs in map fst out ++ [fin].
+  if PrimFloat.eqb I PrimFloat.zero then [next]
+  else let '(out, fin) := run_thr FNum sign I next xs in map fst out ++ [fin].
